@@ -30,8 +30,9 @@ RespViols(r) ==
   (IF r.borrowed = exp THEN {} ELSE {<<"C19", "borrowed frames iterator: order / error position / size hints differ from frames-then-error", "frames_ref">>})
   \cup (IF r.owned = exp THEN {} ELSE {<<"C19", "owned frames iterator: order / error position / size hints differ from frames-then-error", "frames">>})
   \cup (IF r.summary.is_error = r.err /\ r.summary.is_success = ~r.err /\ r.summary.successful_frames = r.nframes
-           /\ r.summary.count = r.nframes + (IF r.err THEN 1 ELSE 0) THEN {}
-        ELSE {<<"C19", "is_error / is_success / successful_frames disagree with the response", "summary">>})
+           /\ r.summary.count = r.nframes + (IF r.err THEN 1 ELSE 0)
+           /\ r.summary.single = (IF r.nframes >= 1 THEN <<"ok", 1>> ELSE <<"err", 7>>) THEN {}
+        ELSE {<<"C19", "is_error / is_success / successful_frames / into_single_frame disagree with the response", "summary">>})
 
 Init == i = 0
 Next == /\ i < Len(Recs) /\ i' = i + 1
